@@ -116,18 +116,30 @@ fn add_from(s: &mut SelectStatement, f: &From_) {
         From_::Table(t, None) => {
             s.from(a(t));
         }
-        From_::Table(t, Some(al)) => {
-            if route(2) == 0 {
+        From_::Table(t, Some(al)) => match route(4) {
+            0 => {
                 s.from_as(a(t), a(al));
-            } else {
+            }
+            1 => {
+                // aliasing a reference that already carries an alias replaces the alias
+                s.from_as(a(t).into_table_ref().alias(a("old_alias")), a(al));
+            }
+            2 => {
+                s.from(a(t).into_table_ref().alias(a("old_alias")).alias(a(al)));
+            }
+            _ => {
                 s.from(table_ref(f));
             }
-        }
+        },
         From_::SchemaTable(sc, t, None) => {
             s.from((a(sc), a(t)));
         }
         From_::SchemaTable(sc, t, Some(al)) => {
-            s.from_as((a(sc), a(t)), a(al));
+            if route(2) == 0 {
+                s.from_as((a(sc), a(t)).into_table_ref().alias(a("old_alias")), a(al));
+            } else {
+                s.from_as((a(sc), a(t)), a(al));
+            }
         }
         From_::Sub(q, al) => {
             if route(2) == 0 {
@@ -232,8 +244,21 @@ pub fn with_clause(w: &With) -> WithClause {
             _ => CommonTableExpression::new(),
         };
         cte.table_name(a(&c.name));
-        for col in &c.cols {
-            cte.column(a(col));
+        // the column list accumulates over column() / columns() calls in any split
+        match (c.cols.len(), route(3)) {
+            (k, 0) if k >= 2 => {
+                cte.column(a(&c.cols[0]));
+                cte.columns(c.cols[1..].iter().map(|x| a(x)));
+            }
+            (k, 1) if k >= 2 => {
+                cte.columns(c.cols[..k - 1].iter().map(|x| a(x)));
+                cte.columns(c.cols[k - 1..].iter().map(|x| a(x)));
+            }
+            _ => {
+                for col in &c.cols {
+                    cte.column(a(col));
+                }
+            }
         }
         if let Some(m) = c.materialized {
             cte.materialized(m);
